@@ -911,7 +911,7 @@ fn alphabet(mode: Mode, rf: &RefConn, thorough: bool) -> Vec<Ev> {
                         }
                     }
                     Coll::Body(_, _, size, got) => {
-                        for len in 1..=(size - got.len() as u8) {
+                        for len in 0..=(size - got.len() as u8) {
                             v.push(Ev::Body(n, len));
                         }
                     }
@@ -925,6 +925,9 @@ fn alphabet(mode: Mode, rf: &RefConn, thorough: bool) -> Vec<Ev> {
                 v.push(Ev::Deliver(n, 0));
                 v.push(Ev::Header(n, 0, false));
                 v.push(Ev::Header(n, 2, true));
+                // (an empty body frame is out of sequence wherever a body frame is, and changes
+                // nothing inside a body)
+                v.push(Ev::Body(n, 0));
                 v.push(Ev::Body(n, 1));
                 v.push(Ev::Body(n, 2));
                 v.push(Ev::Body(n, 3));
@@ -947,6 +950,7 @@ fn alphabet(mode: Mode, rf: &RefConn, thorough: bool) -> Vec<Ev> {
             v.push(Ev::GetEmpty(2));
             v.push(Ev::Ack(2, 1, false));
             v.push(Ev::Header(0, 1, false));
+            v.push(Ev::Body(0, 0));
             v.push(Ev::Body(0, 1));
             v.push(Ev::Ch0Other(0));
             v.push(Ev::Ch0Other(2));
